@@ -5,7 +5,7 @@ From stdpp Require Import gmap.
 From Coq Require Import ZArith.
 From V Require Import Base.Res Sched.LedgerModel Sched.StmtModel Sched.GangModel Sched.LedgerInvP Sched.LedgerInv
   Sched.LedgerLemmasA Sched.LedgerLemmasJob Sched.LedgerLemmasNode Sched.LedgerLemmasSess Sched.LedgerLemmasSk
-  Sched.LedgerLemmasTxn Sched.LedgerLemmasTxnN Sched.LedgerLemmasAudit Sched.LedgerLemmasSound Sched.LedgerLemmasEx C07.Example C07.Refuted.
+  Sched.LedgerLemmasTxn Sched.LedgerLemmasTxnN Sched.LedgerLemmasAudit Sched.LedgerLemmasSound Sched.LedgerLemmasEx C07.Example C07.Refuted C07.Entry.
 Open Scope Z_scope.
 
 (* ---- 1. primitives ---- *)
@@ -132,6 +132,18 @@ Theorem C07_undecided_reaches_binder_refuted :
 Proof. exact undecided_reaches_binder_refuted. Qed.
 Print Assumptions C07_undecided_reaches_binder_refuted.
 
+(* (e) evictor half, caller induced: Session.Evict of a task whose eviction an OPEN statement
+   records hands it to the evictor; the later Discard restores it to Running in the session *)
+Theorem C07_undecided_reaches_evictor_refuted :
+  let s1 := run ex_eps ex_sess [OEvict 1 2; OSsnEvict 2] in
+  run_results ex_eps ex_sess [OEvict 1 2; OSsnEvict 2] = [ROk; ROk] /\
+  evicts s1 = [2%positive] /\ map op_task (default [] (stmts s1 !! 1%positive)) = [2%positive] /\
+  let s2 := run ex_eps s1 [ODiscard 1] in
+  okb s2 = true /\ task_view s2 2 = Some (Running, Some 1%positive) /\ evicts s2 = [2%positive] /\
+  sess_sameb ex_sess s2 = false.
+Proof. exact undecided_reaches_evictor_refuted. Qed.
+Print Assumptions C07_undecided_reaches_evictor_refuted.
+
 (* ---- 4. a failed operation leaves no trace ---- *)
 Theorem C07_failed_op_no_trace : forall eps s sid k p nid s',
   sess_ok s -> placeable s p nid ->
@@ -141,8 +153,8 @@ Proof. exact failed_place_no_trace. Qed.
 Print Assumptions C07_failed_op_no_trace.
 
 (* Session.Allocate / Pipeline on a placeable task whose job holds no other Allocated task:
-   whatever the reason of the error -- unknown job, unknown node, node refusing the task,
-   dispatch (AddBindTask) refused (fix c8b10ae) -- the session is sess_eqv to the one before *)
+   whatever the reason of the error -- unknown job, unknown node, dispatch (AddBindTask) refused
+   (fix c8b10ae); under [placeable] the node cannot refuse -- the session is sess_eqv to the one before *)
 Theorem C07_failed_ssn_place_no_trace : forall eps jr s k p nid,
   sess_ok s -> placeable s p nid ->
   (forall j, jobs s !! t_job p = Some j -> idx_set (j_index j) Allocated = ∅) ->
@@ -291,6 +303,12 @@ Theorem C07_ledger_okb_sound : forall s,
 Proof. exact ledger_okb_sound. Qed.
 Print Assumptions C07_ledger_okb_sound.
 
+(* base case: the boolean evaluated per generated case on the model's own initial session (law 112)
+   implies the hypotheses of the history theorem *)
+Theorem C07_init_okb_sess_ok : forall s, init_okb s = true -> sess_ok s.
+Proof. exact init_okb_sess_ok. Qed.
+Print Assumptions C07_init_okb_sess_ok.
+
 (* ---- the record of the other repaired defects (pre-fix variants, C07/Refuted.v) ---- *)
 Theorem C07_unevict_prefix_refuted :
   exists s sid tid,
@@ -341,9 +359,21 @@ Example C07_ex_txn_pre :
   Forall (tx_pre ex_sess) ex_txn /\ NoDup (map tx_tid ex_txn) /\ default [] (stmts ex_sess !! 1%positive) = [].
 Proof. exact ex_txn_pre. Qed.
 Example C07_ex_dispatch_refused :
-  placeable d_sess (ex_task 1) 1 /\ snd (ssn_place ex_eps d_sess KAllocate 1 1) = RErr /\
+  sess_ok d_sess /\ placeable d_sess (ex_task 1) 1 /\
+  (forall j, jobs d_sess !! t_job (ex_task 1) = Some j -> idx_set (j_index j) Allocated = ∅) /\
+  snd (ssn_place ex_eps d_sess KAllocate 1 1) = RErr /\
   sess_sameb d_sess (fst (ssn_place ex_eps d_sess KAllocate 1 1)) = true.
 Proof. exact ex_dispatch_refused. Qed.
+Example C07_ex_commit_refused_pre :
+  sess_ok d_sess /\ placeable d_sess (ex_task 1) 1 /\ default [] (stmts d_sess !! 1%positive) = [] /\
+  snd (place_with ex_eps d_sess 1 KAllocate (ex_task 1) 1) = ROk /\ t_id (ex_task 1) ∈ refuse_bind d_sess.
+Proof. exact ex_commit_refused_pre. Qed.
+Example C07_ex_node_refuses :
+  sess_ok held_sess /\ heap held_sess !! 4%positive = Some (default (ex_task 4) (heap held_sess !! 4%positive)) /\
+  let p := default (ex_task 4) (heap held_sess !! 4%positive) in
+  t_status p = Pending /\ t_node p = None /\ jknown held_sess p /\
+  exists n e, nodes held_sess !! 2%positive = Some n /\ node_add ex_eps n (placed_obj held_sess KAllocate p 2) = inr e.
+Proof. exact ex_node_refuses. Qed.
 Example C07_ex_place_ok : snd (place_with ex_eps ex_sess 1 KAllocate (ex_task 1) 1) = ROk.
 Proof. exact ex_place_ok. Qed.
 Example C07_ex_place_fails : snd (place_with ex_eps ex_sess 1 KAllocate (ex_task 1) 9) = RErr.
